@@ -278,7 +278,7 @@ pub fn corrupt_line(t: &mut Tape, line: &str, alignment: bool) -> (String, Strin
             let (a, b) = if alignment {
                 *t.pick(&[("abc", "5"), ("5", "abc"), ("", ""), ("1,5", "2"), ("0x10", "5"), ("--1", "3"), ("1e", "2")])
             } else {
-                *t.pick(&[("abc", "5"), ("1e400", "1e400"), ("-5", "-7"), ("NaN", "NaN"), ("inf", "-inf"), ("1e308", "1e308"), ("", ""), ("5", "abc")])
+                *t.pick(&[("abc", "5"), ("1e400", "1e400"), ("-5", "-7"), ("NaN", "NaN"), ("inf", "-inf"), ("1e308", "1e308"), ("", ""), ("5", "abc"), ("18446744073709551616", "99999999999999999999"), ("100000000000000000000", "340282366920938463463374607431768211456"), ("18446744073709551615", "18446744073709551617")])
             };
             s = format!("{} {} {}", a, b, label);
             "bad-times"
@@ -390,6 +390,30 @@ impl Prop for Corruptions {
             if expect_ok { "well-formed" } else { "NOT well-formed" },
             c.lines
         );
+        // time stamps are counts of 100 ns: every non-negative stamp the loader keeps must be the
+        // written decimal value times sampling_rate / (fperiod * 1e7), however it is spelled
+        if expect_ok {
+            if let Ok(l) = jbonsai::label::Labels::load_from_strings(cond.get_sampling_frequency(), cond.get_fperiod(), c.lines.as_slice()) {
+                let rate = cond.get_sampling_frequency() as f64 / (cond.get_fperiod() as f64 * 1e7);
+                let mut k = 0;
+                for line in c.lines.iter().filter(|l| !l.is_empty()) {
+                    let mut it = line.splitn(3, ' ');
+                    let a = it.next().unwrap_or("");
+                    if let (Some(b), Some(_)) = (it.next(), it.next()) {
+                        for (which, tok, got) in [("start", a, l.times()[k].0), ("end", b, l.times()[k].1)] {
+                            let v: f64 = tok.parse().unwrap_or(f64::NAN);
+                            if v >= 0.0 {
+                                let want = v * rate;
+                                let ok = if want.is_finite() { (got - want).abs() <= 1e-12 * want.abs() } else { got == want };
+                                ensure!(ok, "stamp-units", "the {} stamp {:?} of label {} is kept as {:e} frames, but {} x 100 ns is {:e} frames (rate {:e})", which, tok, k, got, tok, want, rate);
+                                rep.class("stamp-checked");
+                            }
+                        }
+                    }
+                    k += 1;
+                }
+            }
+        }
         // with alignment on, parsed times must be finite and small, else the case is out of domain
         if c.alignment {
             if let Ok(l) = jbonsai::label::Labels::load_from_strings(cond.get_sampling_frequency(), cond.get_fperiod(), c.lines.as_slice()) {
